@@ -1282,6 +1282,33 @@ def keepsAligned (cfg : Cfg) (chain : List Step) (s : List Inter) : Bool :=
   | .ok S' => alignedStreamB s S'.stream
   | .error _ => true
 
+/-! ### shape hypotheses of the injectivity theorems (decidable, evaluated by the driver) -/
+
+/-- both rows have, at position `n`, a categorical over the same level list -/
+def sameCatAt (xs ys : List Val) (n : Nat) : Bool :=
+  match xs[n]?, ys[n]? with
+  | some (.cat _ l1), some (.cat _ l2) => l1 == l2
+  | _, _ => false
+
+def descending : List Nat → Bool
+  | [] => true
+  | [_] => true
+  | a :: b :: r => decide (b < a) && descending (b :: r)
+
+/-- two dense rows of one shape w.r.t. `flags`: where a flag is set both hold a tuple (or both a
+list) of the same length -/
+def sameNestShape : List Bool → List Val → List Val → Bool
+  | [], _, _ => true
+  | _, [], [] => true
+  | f :: fs, x :: xs, y :: ys =>
+    (if f then
+      match x, y with
+      | .tuple a, .tuple b => a.length == b.length
+      | .list a, .list b => a.length == b.length
+      | _, _ => false
+     else true) && sameNestShape fs xs ys
+  | _, _, _ => false
+
 /-! ### witnesses of the recorded defects (replayed on the real code by the harness) -/
 def catA : Val := .cat "a" ["a", "b"]
 def catB : Val := .cat "b" ["a", "b"]
